@@ -314,6 +314,14 @@ func stmt(o op) string {
 			return fmt.Sprintf("{\n\ttmp := S{N: %d, A: [2]int{%d, 0}}\n\t%s = tmp\n}\ndump(v)\n", o.V, o.V, D)
 		}
 		return fmt.Sprintf("%s = S{N: %d, A: [2]int{%d, 0}}\ndump(v)\n", D, o.V, o.V)
+	case "SetLitSelf":
+		switch {
+		case o.X == "A" && o.I == 0:
+			return fmt.Sprintf("%s = [2]int{%s, %s}\ndump(v)\n", D, o.D.sub(2).expr(), o.D.sub(1).expr())
+		case o.X == "A":
+			return fmt.Sprintf("%s = [2]int{1: %s}\ndump(v)\n", D, o.D.sub(1).expr())
+		}
+		return fmt.Sprintf("%s = S{N: %s, A: [2]int{%s, %s}}\ndump(v)\n", D, o.D.sub(2, 1).expr(), o.D.sub(2, 2).expr(), o.D.sub(1).expr())
 	case "SetMapEntry":
 		switch o.X {
 		case "int":
